@@ -52,6 +52,13 @@ def plan(tier, seed):
     from vf import serkinds
 
     specs = []
+    # overwrite / delete-and-recreate histories on one path: a load must always reflect the latest save (few and cheap: always run)
+    for store in ("zip", "dir"):
+        for comp in (None, 0, 4):
+            for variant in HISTORY_VARIANTS:
+                for how in ("overwrite", "delete_recreate"):
+                    for rep_ in range(1 if tier == "quick" else 6):
+                        specs.append({"kind": "history", "store": store, "compression": comp, "variant": variant, "how": how, "rounds": 4, "_must_run": True})
     j = 0
     for k in serkinds.KINDS:
         for p in serkinds.PLACEMENTS:
@@ -77,13 +84,6 @@ def plan(tier, seed):
     # real library classes as graphs (Dataset of every rank, ragged Vector)
     for r in range(16 if tier == "quick" else 200):
         specs.append({"kind": "library", "which": ["dataset", "dataset", "dataset", "vector"][r % 4], "compression": COMPRESSION[(r * 3) % 11]})
-    # overwrite / delete-and-recreate histories on one path: a load must always reflect the latest save
-    for store in ("zip", "dir"):
-        for comp in (None, 0, 4):
-            for variant in HISTORY_VARIANTS:
-                for how in ("overwrite", "delete_recreate"):
-                    for rep_ in range(1 if tier == "quick" else 6):
-                        specs.append({"kind": "history", "store": store, "compression": comp, "variant": variant, "how": how, "rounds": 4})
     n = 300 if tier == "quick" else 4000
     for r in range(n):
         specs.append({"kind": "random", "compression": COMPRESSION[r % 11], "pathkind": "Path" if r % 2 else "str", "mode": "o" if r % 3 == 0 else "w", "auto": r % 5 == 0})
